@@ -89,7 +89,43 @@ func (sp *SAMLServiceProvider) validateLogoutResponseAttributes(response *types.
 	return nil
 }
 
+// withoutUnusedNamespaceDeclarations returns el's attributes minus the xmlns:prefix
+// declarations whose prefix no element or attribute name below el uses. Such a
+// declaration means nothing, and exclusive canonicalization drops it, so a signed
+// message can gain one in transit; encoding/xml however matches it against struct
+// fields by local name (xmlns:ID="x" would be read as the ID attribute).
+func withoutUnusedNamespaceDeclarations(el *etree.Element) []etree.Attr {
+	used := map[string]bool{}
+	var walk func(e *etree.Element)
+	walk = func(e *etree.Element) {
+		used[e.Space] = true
+		for _, a := range e.Attr {
+			if a.Space != "xmlns" {
+				used[a.Space] = true
+			}
+		}
+		for _, c := range e.ChildElements() {
+			walk(c)
+		}
+	}
+	walk(el)
+	attrs := make([]etree.Attr, 0, len(el.Attr))
+	for _, a := range el.Attr {
+		if a.Space == "xmlns" && !used[a.Key] {
+			continue
+		}
+		attrs = append(attrs, a)
+	}
+	return attrs
+}
+
 func xmlUnmarshalElement(el *etree.Element, obj interface{}) error {
+	// Decode without the namespace declarations nothing uses; the element itself is
+	// left as it is (it may still have to be canonicalized for a signature check).
+	saved := el.Attr
+	el.Attr = withoutUnusedNamespaceDeclarations(el)
+	defer func() { el.Attr = saved }()
+
 	doc := etree.NewDocument()
 	// Escape CR (and TAB/LF in attribute values) as character references so that the
 	// decoder does not normalize them away.
